@@ -178,6 +178,23 @@ where
         }
         Err(e) => vensure!(!reduced, "canonical representative {} refused: {e}", hex(&xl)),
     }
+    // the same bytes decoded in place over a live value (storage reuse in containers): whatever the
+    // outcome, the value stored afterwards is canonical; on success it is the decoded representative
+    {
+        use bincode::Options;
+        let mut place = ConstMontyForm::<M, N>::ZERO;
+        let opts = bincode::DefaultOptions::new().with_fixint_encoding().allow_trailing_bytes();
+        let ok = total("Deserialize::deserialize_in_place::<ConstMontyForm>", || {
+            let mut de = bincode::Deserializer::from_slice(&enc, opts);
+            serde::Deserialize::deserialize_in_place(&mut de, &mut place).is_ok()
+        })?;
+        let stored = ul(place.as_montgomery());
+        vensure!(big(&stored) < mb, "deserialize_in_place (success = {ok}) left {} in the place, which is not < m = {}", hex(&stored), hex(&ml));
+        veq!(ok, reduced, "deserialize_in_place: success");
+        if ok {
+            veq!(stored, xl, "deserialize_in_place stores another representative");
+        }
+    }
     Ok(())
 }
 
